@@ -465,3 +465,133 @@ def install_samples():
         setattr(JS, op, snap(icontract.ensure(_derived_post_factory(op), error=AssertionError)(getattr(JS, op))))
     JS.__getitem__ = snap(icontract.ensure(_getitem_post, error=AssertionError)(JS.__getitem__))
     JS.__tjverif__ = True
+
+
+# --------------------------------------------------------------------------
+# C08: validate_prepare_data contract
+# --------------------------------------------------------------------------
+def _vpd_check(data, poly_trend, n_offsets, result):
+    """Return list of (key, msg). Single RVData input is trivially labelled."""
+    from thejoker.data import RVData
+    import astropy.units as u
+    all_data, ids, trend_M = result
+    bad = []
+    if isinstance(data, RVData):
+        if len(all_data) != len(data) or np.any(np.asarray(ids) != np.asarray(ids)[0] if len(ids) else False):
+            bad.append(("single-source-altered", "single source came back altered"))
+        return bad
+    if hasattr(data, "keys"):
+        keys = list(data.keys())
+        srcs = [data[k] for k in keys]
+        is_list = False
+    else:
+        srcs = list(data)
+        keys = list(range(len(srcs)))
+        is_list = True
+    unit = srcs[0].rv.unit
+    T = np.concatenate([np.asarray(s._t_bmjd, float) for s in srcs])
+    V = np.concatenate([s.rv.to_value(unit) for s in srcs])
+    E = np.concatenate([s.rv_err.to_value(unit) for s in srcs])
+    OWN = np.concatenate([[i] * len(s) for i, s in enumerate(srcs)])
+    n = len(T)
+    mt = np.asarray(all_data._t_bmjd, float)
+    mv = all_data.rv.to_value(unit)
+    me = all_data.rv_err.to_value(unit)
+    ids = np.asarray(ids)
+    trend_M = np.asarray(trend_M)
+    if not (len(mt) == len(mv) == len(me) == len(ids) == trend_M.shape[0] == n):
+        return [("union-size", "merged %d rows, ids %d, design %d, inputs %d" % (len(mt), len(ids), trend_M.shape[0], n))]
+    if np.any(np.diff(mt) < 0):
+        bad.append(("not-time-sorted", "merged data not time-sorted"))
+    # match every merged row to its input row (unique velocity tags)
+    o_in = np.argsort(V, kind="stable")
+    o_m = np.argsort(mv, kind="stable")
+    if not (np.allclose(V[o_in], mv[o_m], rtol=1e-12, atol=0) and np.allclose(T[o_in], mt[o_m], rtol=0, atol=1e-8)
+            and np.allclose(E[o_in], me[o_m], rtol=1e-12, atol=0)):
+        bad.append(("not-the-union", "merged (t, rv, err) triples are not the union of the inputs"))
+        return bad
+    if len(np.unique(V)) != n:
+        return bad      # tags not unique: pairing undecidable, skip silently (counted by caller)
+    src_of_row = np.empty(n, dtype=int)
+    src_of_row[o_m] = OWN[o_in]
+    # ids must name the survey of each row
+    want_ids = np.array([keys[i] for i in src_of_row], dtype=ids.dtype if ids.dtype.kind in "US" else None)
+    labels_ok = bool(np.all(ids.astype(str) == np.array([str(keys[i]) for i in src_of_row])))
+    if not labels_ok:
+        concat = np.array([str(keys[i]) for i in OWN])
+        if np.all(ids.astype(str) == concat):
+            bad.append(("survey-labels-not-time-sorted",
+                        "ids are in concatenation order while the observations are time-sorted: %d of %d rows carry "
+                        "another survey's label" % (int(np.sum(ids.astype(str) != np.array([str(keys[i]) for i in src_of_row]))), n)))
+        else:
+            bad.append(("survey-labels-wrong", "ids do not name the survey each observation came from"))
+    # design matrix: constant column, then one indicator per non-reference survey, then trend
+    ns = len(srcs)
+    if not labels_ok:
+        # the indicator columns are derived from ids: with wrong ids they are wrong for the same reason.
+        # Judge them against the code's own ids so an independent design defect is still seen.
+        key_index = {str(k): i for i, k in enumerate(keys)}
+        try:
+            src_of_row = np.array([key_index[str(x)] for x in ids])
+        except KeyError:
+            return bad
+    if trend_M.shape[1] != ns + poly_trend - 1:
+        bad.append(("design-shape", "design has %d columns, expected %d" % (trend_M.shape[1], ns + poly_trend - 1)))
+        return bad
+    if not np.all(trend_M[:, 0] == 1.0):
+        bad.append(("design-constant", "first design column is not all ones"))
+    covered = []
+    for j in range(1, ns):
+        col = trend_M[:, j]
+        if not np.all((col == 0) | (col == 1)):
+            bad.append(("design-indicator", "offset column %d is not 0/1" % j))
+            continue
+        rows = np.where(col == 1)[0]
+        owners = set(src_of_row[rows].tolist())
+        if len(owners) != 1 or len(rows) != int(np.sum(src_of_row == (list(owners)[0] if owners else -1))):
+            key = "survey-labels-not-time-sorted" if not labels_ok and np.all(
+                ids.astype(str) == np.array([str(keys[i]) for i in OWN])) else "offset-column-mixes-surveys"
+            bad.append((key, "offset column dv0_%d selects rows of surveys %s (it must select all rows of exactly one)"
+                        % (j, sorted(owners))))
+        else:
+            covered.append(list(owners)[0])
+            if is_list and list(owners)[0] != j:
+                bad.append(("list-offset-order", "list input: dv0_%d is attached to source %d" % (j, list(owners)[0])))
+    if len(set(covered)) == ns - 1 and is_list and 0 in covered:
+        bad.append(("list-reference", "list input: the first source is not the offset-free reference"))
+    dt = mt - all_data._t_ref_bmjd
+    for i in range(1, poly_trend):
+        if not np.allclose(trend_M[:, ns - 1 + i], dt ** i, rtol=1e-13, atol=0):
+            bad.append(("design-trend", "trend column %d is not (t - t_ref)^%d" % (i, i)))
+    # dedupe keys
+    seen, out = set(), []
+    for k, m in bad:
+        if k not in seen:
+            seen.add(k)
+            out.append((k, m))
+    return out
+
+
+def wrap_validate_prepare_data(orig):
+    @functools.wraps(orig)
+    def validate_prepare_data(data, poly_trend, n_offsets):
+        result = orig(data, poly_trend, n_offsets)
+        hit("validate_prepare_data")
+        try:
+            for key, msg in _vpd_check(data, poly_trend, n_offsets, result):
+                fire("C08", key, msg, {"poly_trend": poly_trend, "n_offsets": n_offsets})
+        except Exception as e:
+            fire("C08-monitor-error", "monitor-error", repr(e))
+        return result
+    validate_prepare_data.__wrapped_by_tjverif__ = True
+    return validate_prepare_data
+
+
+def install_validate_prepare_data():
+    import thejoker.data_helpers as dh
+    import thejoker.thejoker as tj
+    if getattr(dh.validate_prepare_data, "__wrapped_by_tjverif__", False):
+        return
+    w = wrap_validate_prepare_data(dh.validate_prepare_data)
+    dh.validate_prepare_data = w
+    tj.validate_prepare_data = w
